@@ -64,10 +64,17 @@ def r2_switch_plumbing(chk):
     for rel, cname in ((INTER, 'IntermediateCodeGen'), (ir.SYMTAB, 'SymtableCodeGen')):
         o, fn = model.cls(rel, cname).find_method('genCode')
         sw = [s for s in fn.body if isinstance(s, ast.Assign) and norm(s.targets[0]) == "self.genRules['text']"]
-        ok = len(sw) == 1 and norm(sw[0].value) in ("kwargs.get('genTexts', False)", "kwargs.get('genTexts')",
-                                                   "bool(kwargs.get('genTexts'))", "kwargs.get('genTexts', None)")
+        swv = [s.value for s in sw]
+        if len(swv) == 1 and isinstance(swv[0], ast.Name):
+            # through a local assigned exactly once at the top level of genCode
+            la = [s for s in walk_no_nested(fn) if isinstance(s, ast.Assign) and len(s.targets) == 1 and
+                  isinstance(s.targets[0], ast.Name) and s.targets[0].id == swv[0].id]
+            if len(la) == 1 and la[0] in fn.body and la[0].lineno < sw[0].lineno:
+                swv = [la[0].value]
+        ok = len(sw) == 1 and norm(swv[0]) in ("kwargs.get('genTexts', False)", "kwargs.get('genTexts')",
+                                              "bool(kwargs.get('genTexts'))", "kwargs.get('genTexts', None)")
         chk.ob('C15.R2', '%s.genCode/text-switch' % cname, ok, where(o.mod, fn),
-               'text switch is %s' % [norm(s.value) for s in sw])
+               'text switch is %s' % [norm(v) for v in swv])
     o, fn = model.cls(INTER, 'IntermediateCodeGen').find_method('genCode')
     tf = [s for s in fn.body if isinstance(s, ast.Assign) and norm(s.targets[0]) == 'self.textFilter']
     ok = len(tf) == 1 and isinstance(tf[0].value, ast.BoolOp) and isinstance(tf[0].value.op, ast.Or) and \
